@@ -120,6 +120,8 @@ static std::vector<op_t> parse_ops(const std::string& s) {
     return r;
 }
 static const int NSLOTS = 2;
+// byte the object storage is filled with before a constructor runs (request key `fill=poison` selects 0xA5)
+static int g_storage_fill = 0;
 
 // generic interpreter over a kind adaptor K:
 //   K::C                                 container type
@@ -135,7 +137,7 @@ template <typename K> static std::string run_history(const std::vector<op_t>& op
     auto obj = [&](int k) -> C& { return *std::launder(reinterpret_cast<C*>(store[k])); };
     // object storage handed to the constructors is filled with a known byte; the barrier (and -fno-lifetime-dse,
     // see harness_specs) keeps the compiler from dropping the fill as a dead store before the constructor
-    auto fresh = [&](int k) -> void* { memset(store[k], K::storage_fill, sizeof(C)); void* p = store[k]; asm volatile("" : "+r"(p) : : "memory"); return p; };
+    auto fresh = [&](int k) -> void* { memset(store[k], g_storage_fill, sizeof(C)); void* p = store[k]; asm volatile("" : "+r"(p) : : "memory"); return p; };
     std::string S, I;
     auto show = [&](int k) -> std::string {
         if (!live[k]) return "-";
@@ -450,6 +452,7 @@ std::string handle(const std::string& op, const Args& a) {
         return "unknown-op";
     }
     if (op != "hist") return "unknown-op";
+    g_storage_fill = (has(a, "fill") && get(a, "fill") == "poison") ? (int)c19::POISON : 0;
     std::string kind = get(a, "kind"), e = has(a, "elem") ? get(a, "elem") : "int";
     auto ops = parse_ops(get(a, "ops"));
     if (kind == "vec") return by_elem<vec_kind>(e, ops);
